@@ -266,7 +266,7 @@ func (e *Engine) computeModsets() {
 								env[gc.Params[i]] = a.Type()
 							}
 						}
-						ms.addAll(modCompsEnv(gc, env))
+						ms.addAll(e.modCompsEnv(gc, env))
 						continue
 					}
 					if ftc := e.funcTypeContract(cc); ftc != nil && ftc.HasMod {
@@ -274,7 +274,7 @@ func (e *Engine) computeModsets() {
 						if len(ftc.Params) > 0 {
 							env[ftc.Params[0]] = cc.Value.Type()
 						}
-						ms.addAll(modCompsEnv(ftc, env))
+						ms.addAll(e.modCompsEnv(ftc, env))
 						continue
 					}
 					if cc.IsInvoke() {
@@ -427,9 +427,9 @@ func (e *Engine) instrWrites(in ssa.Instruction, g *Gen) []string {
 		ms.addAll(e.callMods(cc))
 	}
 	var out []string
-	for _, c := range ms {
-		g.materialize(c)
-		out = append(out, c.Name)
+	for _, name := range sortedKeys(ms) {
+		g.materialize(ms[name])
+		out = append(out, name)
 	}
 	return out
 }
@@ -450,7 +450,7 @@ func (e *Engine) callMods(cc *ssa.CallCommon) compSet {
 				env[gc.Params[i]] = a.Type()
 			}
 		}
-		ms.addAll(modCompsEnv(gc, env))
+		ms.addAll(e.modCompsEnv(gc, env))
 		return ms
 	}
 	if ftc := e.funcTypeContract(cc); ftc != nil && ftc.HasMod {
@@ -458,7 +458,7 @@ func (e *Engine) callMods(cc *ssa.CallCommon) compSet {
 		if len(ftc.Params) > 0 {
 			env[ftc.Params[0]] = cc.Value.Type()
 		}
-		ms.addAll(modCompsEnv(ftc, env))
+		ms.addAll(e.modCompsEnv(ftc, env))
 		return ms
 	}
 	for _, f := range e.possibleCallees(cc) {
